@@ -89,7 +89,7 @@ impl TupleElement {
 
                 // Validate that the index matches the current position
                 match root_field {
-                    FieldName::Index(index) if index == position => {
+                    FieldName::Index(index) if index.index as usize == position => {
                         // Valid indexed element
                         let _: Token![:] = input.parse()?;
                         let pattern = input.parse()?;
@@ -103,7 +103,10 @@ impl TupleElement {
                         // Index doesn't match position
                         return Err(syn::Error::new(
                             input.span(),
-                            format!("Index {} must match position {} in tuple", index, position),
+                            format!(
+                                "Index {} must match position {} in tuple",
+                                index.index, position
+                            ),
                         ));
                     }
                     FieldName::Ident(_) => {
